@@ -334,6 +334,10 @@ class Dyn(Calls):
         return b
 
     def binop(self, op, a, b):
+        if self.spec_mode:
+            # specifications are total: an optional operand stands for its value (meaningful under `is not None`)
+            a = a.val if isinstance(a, VOpt) else a
+            b = b.val if isinstance(b, VOpt) else b
         num = (VInt, VReal, VBool)
         if isinstance(a, VObj) and isinstance(b, num) and not isinstance(b, VObj):
             a = VReal(self.to_term(a, TReal))
@@ -458,3 +462,72 @@ class Dyn(Calls):
         old, n_ = c.arr, c.n
         self.add_universal([TInt], lambda i: z3.Implies(z3.And(0 <= i, i < n_), arr2[i] == old[n_ - 1 - i]), "reversed")
         return self.new_box(ListV(c.ty, arr2, c.n))
+
+    # ------------------------------------------------------------------ class-level mutable state (e.g. MementoFunction._global_fn_generation)
+    def class_member(self, base, name):
+        cs = getattr(self.reg, "class_state", {}).get((base.name.split(".")[-1], name))
+        if cs is not None:
+            if cs not in self.st.ghost:
+                raise Unsupported("class state %s.%s is not initialised (ghost %s)" % (base.name, name, cs))
+            return self.st.ghost[cs]
+        return super().class_member(base, name)
+
+    def set_attr(self, base, name, v):
+        if isinstance(base, VClass):
+            cs = getattr(self.reg, "class_state", {}).get((base.name.split(".")[-1], name))
+            if cs is None:
+                raise Unsupported("store to class attribute %s.%s" % (base.name, name))
+            self.st.ghost[cs] = v
+            return
+        return super().set_attr(base, name, v)
+
+    def call(self, fv, args, kwargs, node=None):
+        if isinstance(fv, (VStr, VInt, VBool, VReal, VRec, VTuple)) or fv is VNone:
+            if self.spec_mode:
+                raise Unsupported("call of a non-callable in a specification")
+            raise PyRaise(VExc("TypeError", [VStr("object is not callable")]))
+        if isinstance(fv, VOpt) and not self.spec_mode:
+            if self.branch(fv.isnone):
+                raise PyRaise(VExc("TypeError", [VStr("'NoneType' object is not callable")]))
+            return self.call(fv.val, args, kwargs, node)
+        return super().call(fv, args, kwargs, node)
+
+    def to_str(self, v):
+        if isinstance(v, (VCont, VTuple, VEnt, VBool, VReal)):
+            f = self.fresh("repr", z3.StringSort())
+            return f
+        if isinstance(v, VOpt):
+            return z3.If(v.isnone, z3.StringVal("None"), self.to_str(v.val))
+        return super().to_str(v)
+
+    def bi_hasattr(self, args, kwargs, node):
+        o, nm = args
+        if isinstance(o, VObj):
+            return VBool(z3.Function("has_attr", ObjSort, ObjSort, z3.BoolSort())(o.t, self.box(nm)))
+        raise Unsupported("hasattr on %r" % (o,))
+
+    def pure_filter(self, n, g, var, c):
+        """Adds two consequences of the filter step rule (each by induction on the index, trusted): the filtered list is
+        non-empty iff some source element passes the filter."""
+        box = super().pure_filter(n, g, var, c)
+        lst = self.cont(box)
+        rank, n_ = lst.rank, c.n
+        snap = self.st.snapshot()
+        env0 = dict(self.st.env)
+
+        def cond(i):
+            def f():
+                self.st.env = dict(env0)
+                self.st.env[var] = self.from_term(c.arr[i], c.ty.e)
+                return z3.And(*[self.truth(self.ev(x)) for x in g.ifs])
+            return self.in_state(snap.snapshot(), {}, self.old_state, f)
+        self.add_universal([TInt], lambda i: z3.Implies(z3.And(0 <= i, i < n_, cond(i)), rank[n_] > 0), "filter-nonempty-if-some-pass")
+        w = self.fresh("fw", z3.IntSort())
+        self.touch(TInt, w)
+        saved = self.pol
+        self.pol = 0
+        try:
+            self.assume(z3.Implies(rank[n_] > 0, z3.And(0 <= w, w < n_, cond(w))))
+        finally:
+            self.pol = saved
+        return box
